@@ -148,11 +148,12 @@ func init() {
 
 	// ---- C03 ---------------------------------------------------------------------
 	check.RegisterProp("C03", func(tier string) []check.Job {
-		d, ld := 4, 6
+		d, ld, od := 4, 6, 7
 		if tier == "thorough" {
-			d, ld = 5, 7
+			d, ld, od = 6, 7, 9
 		}
 		return []check.Job{
+			s1job("own-switch", od, []string{"C03"}, 3, 600),
 			s1job("two-sessions", d, []string{"C03"}, 10, 600),
 			s1job("lifecycle", ld, []string{"C03", "C07"}, 3, 600),
 			s1job("entities", ld, []string{"C03", "C01", "C02"}, 3, 600),
